@@ -169,6 +169,7 @@ func runC09(t *testing.T, tape *sim.Tape, tier string) *Outcome {
 	// in its CA file; then the CA file is replaced in place (same path), set again and the server restarted. The
 	// configured CA of the scenario is the one set last
 	rotated := tape.Draw(6, "ca-rotation") == 5
+	var rotSessions tls.ClientSessionCache // sessions of the clients of the former CA (rotated runs)
 	// one run in four (of the others): the server's certificate was issued by an authority of its own and its
 	// certificate file holds the full chain (leaf + issuer); the "foreign CA" client of such a run presents a
 	// certificate issued by that very authority - which is not the one configured for client certificates
@@ -193,13 +194,35 @@ func runC09(t *testing.T, tape *sim.Tape, tier string) *Outcome {
 			cl.finish()
 			return o
 		}
+		// while the former CA is in force a client with a certificate of that CA is served and keeps its TLS session
+		// (ticket); after the rotation the same client comes back with that session
+		rotSessions = tls.NewLRUClientSessionCache(4)
+		preCfg := p.ClientConfig(p.Foreign)
+		preCfg.ClientSessionCache = rotSessions
+		pre := cl.probeTLS("formerca", addrOf(tlsPort), preCfg, [][]byte{resp.Cmd("PING")}, 1500)
+		if pre.P != nil {
+			pre.P.Ends[0].Close() // it has left before the rotation
+		}
+		if pre.HandshakeErr != nil || !pre.HandshakeOK {
+			// (with a rule that its name does not satisfy it is disconnected after the handshake: it has its session all the same)
+			o.violate("harness:former-ca-client", "the client of the former CA could not complete its handshake before the rotation (handshake err %v, io err %v)", pre.HandshakeErr, pre.IOErr)
+			cl.finish()
+			return o
+		}
+		cl.settle(3000)
 		werr = os.WriteFile(caf, p.CA.CertPEM, 0o600)
 		if err := errors.Join(werr, cl.Srv.SetTLSCaCertFile(caf)); err != nil {
 			o.violate("harness:pem-files", "%v", err)
 			cl.finish()
 			return o
 		}
-		if err := cl.lifecycleNow("Restart"); err != nil {
+		err := cl.lifecycleNow("Restart")
+		if err != nil && strings.Contains(err.Error(), "closeNotify") {
+			// Stop reports that the connection of the client that has left could not be closed cleanly (and Restart
+			// stops there): the operator starts the server
+			err = cl.lifecycleNow("Start")
+		}
+		if err != nil {
 			o.violate("harness:restart", "Restart after the CA rotation failed: %v", err)
 			cl.finish()
 			return o
@@ -272,6 +295,11 @@ func runC09(t *testing.T, tape *sim.Tape, tier string) *Outcome {
 			cfg := p.ClientConfig(ident)
 			cfg.MaxVersion = maxVer()
 			cfg.ClientSessionCache = sessions
+			if rotSessions != nil && sc.Cred == "foreign" {
+				// the client of the former CA presents the session it was given before the rotation
+				cfg.ClientSessionCache = rotSessions
+				o.stat("former_ca_clients_presenting_a_session_from_before_the_rotation", 1)
+			}
 			f := cl.addTLSClient(name, tlsAddr, cfg, tlsScript(sc.Config, "faulty"))
 			if sc.Fault != "complete" {
 				f.Fault = sc.Fault
@@ -490,7 +518,7 @@ func init() {
 	register(&Check{
 		ID: "C09", Bubble: true, Run: runC09,
 		Runs:   map[string]int{"quick": 20 * n, "thorough": 1500 * n},
-		Rule:   fmt.Sprintf("the scenario space {no rule, common-name rule, rule+password} x {no certificate, self-signed, foreign CA, expired, right CA wrong name (half of them a near miss of the rule's name), right CA wrong common name with the rule's name among the DNS alternative names, right name only on an intermediate, right CA right name, plain-text bytes, garbage; abort after ClientHello; stalled handshake with and without a valid certificate} x {before, between, after well-behaved clients} = %d scenarios is enumerated completely (run index mod %d); per scenario the schedule (accept loop vs. handshake records vs. other clients), record chunking and TLS 1.2/1.3 are sampled; one run in sixteen adds a crowd of 130..250 connections that stay silent on the TLS port; a quarter of the runs with a rule use a rule name with separator characters, carried exactly by the admitted identity and in pieces by the wrong-name client; a third of the runs repeat the scenario client 2..12 times, half of those one after the other with a shared TLS session cache (resumed sessions); with rule+password every TLS client first sends a command before AUTH, which must not reach the handler; one run in six starts from a configuration history (files; former CA; CA file replaced in place and set again; Restart); a quarter of the other runs give the server a certificate chain (leaf + issuer) of an authority of its own, whose client certificate is the foreign one of that run; distinct = distinct (scenario, event-log hash) pairs", n, n),
+		Rule:   fmt.Sprintf("the scenario space {no rule, common-name rule, rule+password} x {no certificate, self-signed, foreign CA, expired, right CA wrong name (half of them a near miss of the rule's name), right CA wrong common name with the rule's name among the DNS alternative names, right name only on an intermediate, right CA right name, plain-text bytes, garbage; abort after ClientHello; stalled handshake with and without a valid certificate} x {before, between, after well-behaved clients} = %d scenarios is enumerated completely (run index mod %d); per scenario the schedule (accept loop vs. handshake records vs. other clients), record chunking and TLS 1.2/1.3 are sampled; one run in sixteen adds a crowd of 130..250 connections that stay silent on the TLS port; a quarter of the runs with a rule use a rule name with separator characters, carried exactly by the admitted identity and in pieces by the wrong-name client; a third of the runs repeat the scenario client 2..12 times, half of those one after the other with a shared TLS session cache (resumed sessions); with rule+password every TLS client first sends a command before AUTH, which must not reach the handler; one run in six starts from a configuration history (files; former CA, under which a client of that CA is served and keeps its TLS session; CA file replaced in place and set again; Restart; the foreign-CA client of such a run is that client with its session); a quarter of the other runs give the server a certificate chain (leaf + issuer) of an authority of its own, whose client certificate is the foreign one of that run; distinct = distinct (scenario, event-log hash) pairs", n, n),
 		Real:   []string{"redis.Server TLS accept loop and handshake, NewTLSConfigFrom, auth.CertificateAuthenticator, auth.AuthManager, crypto/tls (server and clients), crypto/x509 verification against the simulated clock"},
 		Stub:   []string{"network: simulated", "certificates: deterministic Ed25519 PKI valid relative to the bubble epoch", "handler: recording double"},
 		Assume: []string{"a plain client counts as served when it gets any reply to PING (with rule+password it cannot authenticate on the plain port)"},
